@@ -353,6 +353,28 @@ fn part_b(run: &mut Run, tier: Tier) {
       }
     }
   }
+  // arms of ONE name: a generic parameter is bound in the arm that declares it, not in its sibling arms
+  let type_binders = ["r<t> = [d]", "r<t> = [t]", "r<t> = {a: m<t>}", "r<t, v> = t / v"];
+  let type_arms = ["r /= @", "r /= [@]", "r /= m<@>", "r /= {a: [@]}", "r<w> /= [@, w]", "r<t> /= [@]"];
+  let group_binders = ["r<t> = (a: t)", "r<t> = (t, d)"];
+  let group_arms = ["r //= (a: @)", "r //= (@, int)", "r<w> //= (a: @, b: w)", "r<t> //= (a: @)"];
+  for (binders, arms) in [(&type_binders[..], &type_arms[..]), (&group_binders[..], &group_arms[..])] {
+    for b in binders {
+      for arm in arms {
+        for (f, cls) in &small {
+          for binder_first in [true, false] {
+            for user in ["", "x = [r<int>]\n", "x = r<int>\n"] {
+              let a = arm.replace('@', f);
+              let text = if binder_first { format!("{user}{b}\n{a}\n{LIB}") } else { format!("{user}{a}\n{b}\n{LIB}") };
+              let arm_binds_t = arm.starts_with("r<t>");
+              let und = if expect_undefined(true, arm_binds_t, *cls) { vec![f.clone()] } else { vec![] };
+              docs.push((text, und));
+            }
+          }
+        }
+      }
+    }
+  }
   let accs = par_sweep(docs.len(), 64, Acc::default, |x, a: &mut Acc| {
     let (text, und) = &docs[x];
     if !matches!(catch(|| cddl::cddl_from_str(text, false).is_ok()), Ok(true)) {
